@@ -35,6 +35,10 @@ def rand_state(rng, maxh=5, maxw=5):
                 else:
                     r.append(rng.choice(VALS))
             rows.append(r)
+    if rows and rng.random() < 0.25:
+        # the table ends with several equal empty rows (stored as one repeated row by the compressed encodings)
+        empty = [tl.E] * rng.choice((0, 1, max(len(r) for r in rows)))
+        rows.extend(list(empty) for _ in range(rng.randint(2, 3)))
     w = max([len(r) for r in rows], default=0)
     if rows:
         w = max(1, w)
